@@ -1,6 +1,7 @@
 import TaskctlVerif.Model.Graph
 import TaskctlVerif.Model.Sched
 import TaskctlVerif.Model.Runner
+import TaskctlVerif.Model.Timeout
 import TaskctlVerif.Model.Cli
 import TaskctlVerif.Model.Cancel
 import TaskctlVerif.Model.CtxHooks
@@ -154,12 +155,31 @@ def hooksCase (fields : List String) : String :=
     let dn := cnt (fun t => match t with | .down c' => c' == c | _ => false)
     s!"c{c}:up={up},before={bf},after={af},down={dn}")
 
+/-- `timed T=150 cond=- cdur=0 before=e0 bdur=10 n=3 vars=- res=e0,e0,e0 dur=10,30000,10 after=e0 adur=10 allow=1 init=0` -/
+def timedCase (fields : List String) : String :=
+  let n := (kv fields "n").toNat?.getD 0
+  let vars := (kv fields "vars").toNat?
+  let resL := parseResList (kv fields "res")
+  let durL := natList (kv fields "dur") ","
+  let cond := if kv fields "cond" = "-" then none else some (parseRes (kv fields "cond"))
+  let t : Runner.TaskSpec := {
+    cond := cond, before := parseResList (kv fields "before"), nCmds := n, vars := vars,
+    res := fun v j => resL.getD (v * n + j) (.exit 0), after := parseResList (kv fields "after"),
+    allow := kv fields "allow" = "1",
+    initExit := if kv fields "init" = "-1" then (-1 : BitVec 16) else 0 }
+  let D : Runner.Durations := {
+    cond := (kv fields "cdur").toNat?.getD 0, before := natList (kv fields "bdur") ",",
+    job := fun v j => durL.getD (v * n + j) 0, after := natList (kv fields "adur") "," }
+  let o := Runner.runTask (Runner.timed t ((kv fields "T").toNat?) D)
+  s!"trace={",".intercalate (o.trace.map tokStr)}|err={b2s o.err}|errored={b2s o.errored}|skipped={b2s o.skipped}|exit={o.exitCode.toInt}"
+
 def handle (line : String) : String :=
   let line := line.trimAscii.toString
   match line.splitOn " " with
   | "graph" :: rest => graphCase (" ".intercalate rest)
   | "sched" :: rest => schedCase rest
   | "runner" :: rest => runnerCase rest
+  | "timed" :: rest => timedCase rest
   | "cli" :: _ => cliCase line
   | "cancel" :: rest => cancelCase rest
   | "hooks" :: rest => hooksCase rest
